@@ -71,12 +71,14 @@ func entryConsistent(c *sim.Ctx, e wallet.Entry, what string) bool {
 func runDerive(c *sim.Ctx) {
 	t := c.T
 	typ := []string{wallet.WalletTypeDeterministic, wallet.WalletTypeBip44, wallet.WalletTypeXPub}[t.Pick("wtype", 4, 4, 2)]
-	si := t.Int("seed", 3)
+	// Seeds come from a small fixed pool shared by all runs of a worker: what varies between
+	// runs is the operation history, and the one-batch reference wallets can be reused.
+	si := t.Int("seed", 4)
 	seed, pass, xpub := "", "", ""
-	mn := mnemonic(c.Seed, si)
+	mn := mnemonic(0, si)
 	switch typ {
 	case wallet.WalletTypeDeterministic:
-		seed = fmt.Sprintf("det seed %d of run %d", si, c.Seed)
+		seed = fmt.Sprintf("det seed %d of the pool", si)
 	case wallet.WalletTypeBip44:
 		seed = mn
 		if t.Bool("passphrase") {
@@ -92,6 +94,8 @@ func runDerive(c *sim.Ctx) {
 	if err != nil {
 		sim.Harnessf("create %s wallet: %v", typ, err)
 	}
+	// the default cipher is scrypt with N=2^20 (1 GiB, seconds per lock): derivation does not depend on it
+	w.SetCryptoType([]crypto.CryptoType{crypto.CryptoTypeSha256Xor, crypto.CryptoTypeScryptChacha20poly1305Insecure}[t.Pick("derive-cipher", 3, 1)])
 	tf := scriptedTF{threshold: byte(t.Int("scan-activity", 200))}
 	total := map[bool]int{}
 	locked := false
@@ -131,11 +135,21 @@ func runDerive(c *sim.Ctx) {
 			n := uint64(1 + t.Int("scan-n", 8))
 			before := len(entriesOf(w, false))
 			beforeC := len(entriesOf(w, true))
-			_, err := w.ScanAddresses(n, tf)
+			ftf := tf
+			if t.Chance("scan-lookup-fails", 1, 4) {
+				ftf.fail = true
+				c.Count("fault.activity_lookup_error_during_scan")
+			}
+			_, err := w.ScanAddresses(n, ftf)
 			c.Kind(2, err == nil)
 			if err != nil {
 				c.Logf("scan %d -> %v", n, err)
-				continue
+				// a failed scan must leave the wallet as it was
+				if len(entriesOf(w, false)) != before || len(entriesOf(w, true)) != beforeC {
+					c.Violate("failed-scan-changed-wallet", typ, "%s wallet: a scan that failed (%v) changed the number of entries", typ, err)
+					return
+				}
+				break
 			}
 			c.Count("op.scan")
 			// expected: the prefix of the one-batch sequence up to the last active address among the next n, never shorter than before
@@ -413,6 +427,39 @@ func runEncrypt(c *sim.Ctx) {
 		}
 	}
 	c.Count("probe.unlock_roundtrip")
+	// (2b) a bip44 wallet can derive addresses while it is locked (it keeps its public chain
+	// keys); unlocking afterwards must restore the secret key of every entry, old and new
+	if typ == wallet.WalletTypeBip44 && t.Chance("generate-while-locked", 2, 3) {
+		lw := w.Clone()
+		for k := 0; k < 1+t.Int("locked-batches", 2); k++ {
+			o := []wallet.Option{wallet.OptionGenerateN(uint64(1 + t.Int("locked-gen-n", 3)))}
+			if t.Bool("locked-gen-change") {
+				o = append(o, wallet.OptionChange())
+			}
+			if _, err := lw.GenerateAddresses(o...); err != nil {
+				sim.Harnessf("generate on a locked bip44 wallet: %v", err)
+			}
+		}
+		c.Count("fault.addresses_generated_while_locked")
+		uw2, err := lw.Unlock(pw)
+		if err != nil {
+			c.Violate("unlock-failed", typ+":after-locked-generate", "unlocking after generating addresses while locked fails: %v", err)
+			return
+		}
+		for _, change := range []bool{false, true} {
+			es := entriesOf(uw2, change)
+			ref := refEntries(typ, seed, pass, "", len(es), change)
+			for i := range es {
+				if !entryConsistent(c, es[i], "bip44 wallet unlocked after generating while locked") {
+					return
+				}
+				if es[i].Secret != ref[i].Secret || es[i].Public != ref[i].Public {
+					c.Violate("unlock-restores-different-secrets", typ+":entry-generated-while-locked", "after unlock, entry %d (change=%v) generated while the wallet was locked has a different key than the seed derives", i, change)
+					return
+				}
+			}
+		}
+	}
 
 	// (3) bit-rot of the stored secrets field: load + unlock must fail cleanly
 	var doc map[string]interface{}
